@@ -115,6 +115,21 @@ theorem title_table_nonempty :
     Gen.utils_title_fallback = "if len()==0 {title:=fmt.Sprintf(); result:=?; return &result}" := by
   decide
 
+/-- No type is both MSM4 and MSM7. -/
+theorem msm4_msm7_disjoint (t : Int) : ¬ (isMSM4 t = true ∧ isMSM7 t = true) := by
+  rw [msm4_set, msm7_set]
+  simp only [msm4Spec, msm7Spec, List.contains_eq_mem, List.mem_cons, List.not_mem_nil, or_false,
+    decide_eq_true_eq]
+  omega
+
+/-- Every MSM type lies in 1074 … 1137 and ends in 4 or 7 (so no type outside the 12-bit range,
+    and in particular not the non-RTCM sentinel -1, is classified as MSM). -/
+theorem msm_range (t : Int) (h : isMSM t = true) : 1074 ≤ t ∧ t ≤ 1137 ∧ (t % 10 = 4 ∨ t % 10 = 7) := by
+  rw [msm_set] at h
+  simp only [msm4Spec, msm7Spec, List.cons_append, List.nil_append, List.contains_eq_mem, List.mem_cons,
+    List.not_mem_nil, or_false, decide_eq_true_eq] at h
+  omega
+
 /-! Non-vacuity (tests). -/
 example : isMSM4 1074 = true ∧ isMSM7 1074 = false ∧ analyseDecoder 1127 = .msm7 := by decide
 example : constellation 1137 = "NavIC/IRNSS" ∧ constellation 1005 = "unknown constellation" := by decide
